@@ -892,56 +892,143 @@ def _wiring(rep, model):
 
 # --------------------------------------------------------------------------
 def _planner(rep, model):
-    """R5: in pyfftw_call the array handed to the planner with an effort
-    that destroys its input must not be an array that is read afterwards."""
+    """R5: `pyfftw_call` interpreted for every combination of input kind
+    (complex / real input that is cast / half-complex), planning effort, given
+    or new plan and direction, with arrays as objects carrying a `destroyed`
+    flag: constructing a plan with a destructive effort overwrites the array
+    it plans on.  The plan must never be executed on an overwritten array and
+    the caller's input must never be overwritten."""
+    from ..symex import Interp, Hooks, ModuleV
     fn = model.ctx.func(PYFFTW, 'pyfftw_call')
-    cons = 'pyfftw_call'
-    # find: plan_arr_in assignments and the FFTW(...) construction
-    assigns = []
-    for s in ast.walk(fn):
-        if isinstance(s, ast.If):
-            for arm, neg in ((s.body, False), (s.orelse, True)):
-                for b in arm:
-                    if isinstance(b, ast.Assign) and ast.unparse(
-                            b.targets[0]) == 'plan_arr_in':
-                        assigns.append((s.test, neg, b))
-    if not assigns:
-        rep.undecided('R5', cons, 'planning array selection not found',
-                      PYFFTW, fn.lineno)
-        return
-    # On every arm where plan_arr_in IS array_in (no scratch array), the
-    # condition must imply that the planner does not destroy its input
-    # or that a stored plan is used: i.e. `must_copy_array_in` is False.
-    probs = []
-    for test, neg, a in assigns:
-        if ast.unparse(a.value) != 'array_in':
-            continue
-        t = ast.unparse(test)
-        # arm taken when (test) is False if neg else True
-        # safe iff the arm condition implies `not must_copy_array_in`
-        if neg:
-            # arm: not(test).  test must be implied by must_copy_array_in
-            atoms = [ast.unparse(v) for v in (
-                test.values if isinstance(test, ast.BoolOp)
-                and isinstance(test.op, ast.And) else [test])]
-            if atoms != ['must_copy_array_in']:
-                probs.append(
-                    'the planner runs on `array_in` itself whenever `%s` is '
-                    'false; with a destructive planning effort that '
-                    'includes the case must_copy_array_in and %s, in which '
-                    'array_in holds the (cast) input that the plan is '
-                    'executed on afterwards: it has been overwritten by '
-                    'the planner' % (t, ' and '.join(
-                        x.replace('not ', '') for x in atoms
-                        if x != 'must_copy_array_in')))
-        else:
-            if 'must_copy_array_in' in t and 'not must_copy' not in t:
-                probs.append('planner runs on array_in under `%s`' % t)
-    if probs:
-        rep.violation('R5', cons, probs[0], PYFFTW, assigns[0][2].lineno)
-    else:
-        rep.holds('R5', cons, 'a destructive planner always gets a scratch '
-                  'array')
+    if fn is None:
+        raise AnalysisError('anchor vanished: pyfftw_call')
+    DESTRUCTIVE = ('FFTW_MEASURE', 'FFTW_PATIENT', 'FFTW_EXHAUSTIVE',
+                   'FFTW_DESTROY_INPUT')
+
+    class Arr(object):
+        def __init__(self, name, kind):
+            self.name, self.kind = name, kind
+            self.destroyed = False
+
+        def __repr__(self):
+            return 'Arr(%s)' % self.name
+
+    class PH(Hooks):
+        def __init__(self, halfcomplex, direction):
+            self.halfcomplex, self.direction = halfcomplex, direction
+            self.executed_on = []
+            self.planned_on = []
+
+        def on_getattr(self, interp, obj, name):
+            if isinstance(obj, Arr):
+                if name == 'flags':
+                    return Rec('flags', aligned=True)
+                if name == 'ndim':
+                    return 2
+                if name == 'size':
+                    return 16
+                if name == 'shape':
+                    return (4, 4)
+                if name == 'dtype':
+                    return Rec('dtype', dkind=obj.kind)
+                if name == 'astype':
+                    return Builtin('astype', lambda dt, **k: Arr(
+                        obj.name + ':cast', 'c'))
+            if isinstance(obj, Rec) and name in obj.attrs:
+                return obj.attrs[name]
+            if isinstance(obj, ModuleV) and obj.name == 'pyfftw' and \
+                    name == 'FFTW':
+                def FFTW(arr_in, arr_out, flags=(), **k):
+                    self.planned_on.append((arr_in, tuple(flags)))
+                    destructive = any(f in DESTRUCTIVE for f in flags) or (
+                        self.direction == 'backward' and self.halfcomplex)
+                    if destructive:
+                        arr_in.destroyed = True
+
+                    def execute(a_in, a_out, **kw):
+                        self.executed_on.append((a_in, a_in.destroyed))
+                    return Builtin('plan', execute)
+                return Builtin('pyfftw.FFTW', FFTW)
+            if obj is NPV and name == 'empty_like':
+                return Builtin('np.empty_like', lambda a: Arr(
+                    a.name + ':scratch', a.kind))
+            return NotImplemented
+
+        def on_name(self, interp, name):
+            if name == 'pyfftw':
+                return ModuleV('pyfftw')
+            if name == 'cpu_count':
+                return Builtin('cpu_count', lambda: 1)
+            return NotImplemented
+
+        def on_call(self, interp, f, args, kwargs, node):
+            if isinstance(f, Func):
+                if f.name == 'is_real_dtype':
+                    return args[0].attrs['dkind'] == 'f'
+                if f.name == 'complex_dtype':
+                    return Rec('dtype', dkind='c')
+                if f.name == '_pyfftw_check_args':
+                    return None
+                if f.name == 'normalized_axes_tuple':
+                    return tuple(args[0])
+            return NotImplemented
+    n = 0
+    for kind, halfcomplex in (('c', False), ('f', False), ('f', True)):
+        for effort in ('estimate', 'measure', 'patient', 'FFTW_MEASURE'):
+            for given_plan in (False, True):
+                for direction in ('forward', 'backward'):
+                    if halfcomplex and direction == 'backward':
+                        kind_in = 'c'
+                    else:
+                        kind_in = kind
+                    n += 1
+                    cons = 'pyfftw_call[%s input%s, %s, planning %s, %s]' % (
+                        {'c': 'complex', 'f': 'real'}[kind_in],
+                        ', halfcomplex' if halfcomplex else '', direction,
+                        effort, 'plan given' if given_plan else 'new plan')
+                    try:
+                        H = PH(halfcomplex, direction)
+                        I = Interp(model, {}, H)
+                        a_in, a_out = Arr('in', kind_in), Arr('out', 'c')
+                        kw = {'planning_effort': effort}
+                        if given_plan:
+                            kw['fftw_plan'] = Builtin(
+                                'given-plan', lambda a, b, **k:
+                                H.executed_on.append((a, a.destroyed)))
+                        I.call_func(Func(fn, I.env_of(PYFFTW), None),
+                                    [a_in, a_out],
+                                    dict(kw, direction=direction,
+                                         halfcomplex=halfcomplex))
+                        probs = []
+                        if len(H.executed_on) != 1:
+                            probs.append('%d executions' % len(
+                                H.executed_on))
+                        for arr, was_destroyed in H.executed_on:
+                            if was_destroyed:
+                                probs.append(
+                                    'the plan is executed on %r after the '
+                                    'planner (flags %s) has overwritten it'
+                                    % (arr, H.planned_on[-1][1]
+                                       if H.planned_on else ()))
+                        # a backward half-complex execution destroys its
+                        # input by design (rule C03-R8); the planner must not
+                        # touch the caller's array in any other case
+                        if a_in.destroyed and not (
+                                halfcomplex and direction == 'backward'):
+                            probs.append('the planner overwrites the '
+                                         "caller's input array")
+                        if probs:
+                            rep.violation('R5', cons, '; '.join(probs),
+                                          PYFFTW, fn.lineno)
+                        else:
+                            rep.holds('R5', cons, 'planner and execution on '
+                                      'disjoint / intact arrays')
+                    except Undecided as e:
+                        rep.undecided('R5', cons, str(e), PYFFTW, fn.lineno)
+                    except PyRaise as e:
+                        rep.violation('R5', cons, 'raises %s' % e.name,
+                                      PYFFTW, fn.lineno)
+    rep.floor('R5', 'planner scenarios', n, 40)
 
 
 def _guards(rep, model):
